@@ -102,7 +102,23 @@ make_server("127.0.0.1", int(os.environ["XV_PORT"]), mounted, handler_class=H).s
 """
 
 
+_PORT_COUNTER = [0]
+
+
 def free_port():
+    """A loopback port from a range private to this process (no two harness processes race for one port)."""
+    base = 20000 + (os.getpid() % 400) * 100
+    for _ in range(100):
+        port = base + _PORT_COUNTER[0] % 100
+        _PORT_COUNTER[0] += 1
+        s = socket.socket()
+        try:
+            s.bind(("127.0.0.1", port))
+            return port
+        except OSError:
+            continue
+        finally:
+            s.close()
     s = socket.socket()
     s.bind(("127.0.0.1", 0))
     p = s.getsockname()[1]
@@ -132,6 +148,8 @@ class Server:
         while time.time() < deadline:
             try:
                 socket.create_connection(("127.0.0.1", self.port), timeout=0.2).close()
+                if self.proc.poll() is not None:
+                    raise OSError("our server is gone; somebody else listens on the port")
                 return
             except OSError:
                 if self.proc.poll() is not None:
